@@ -18,6 +18,36 @@ TYPES = ["int", "double", "string", "tracked"]
 EVN = ["construct-over-alive", "destroy-raw", "assign-to-raw", "read-raw", "read-moved"]
 
 
+
+def build_header_only(name, extra_flags=()):
+    """Compile harness/<name>.cc against the HEADERS of the working tree only (the code under
+    test is header-only: no libvita.a needed, which saves the 28-file library build).  Cached
+    by the hash of the source tree, the harness and the flags."""
+    import hashlib
+    import time
+    out = os.path.join(C.BUILD, "asan")
+    os.makedirs(out, exist_ok=True)
+    src = os.path.join(C.ROOT, "harness", name + ".cc")
+    exe = os.path.join(out, name)
+    flags = C.cxx_flags("asan") + ["-I" + os.path.join(C.ROOT, "harness")] + list(extra_flags)
+    h = hashlib.sha256()
+    h.update(C.repo_tree_hash(" ".join(flags)).encode())
+    for s in (src, os.path.join(C.ROOT, "harness", "common", "verif.h")):
+        h.update(open(s, "rb").read())
+    key = h.hexdigest()
+    stamp = exe + ".stamp"
+    if os.path.exists(exe) and os.path.exists(stamp) and open(stamp).read() == key:
+        return exe
+    t0 = time.time()
+    rc, so, se = C.sh(["g++"] + flags + [src, "-o", exe])
+    if rc != 0:
+        raise RuntimeError("harness %s does not compile against the working tree:\n%s" % (name, se[-6000:]))
+    with open(stamp, "w") as f:
+        f.write(key)
+    C.log("[build] harness %s (asan, header-only) built in %.1fs" % (name, time.time() - t0))
+    return exe
+
+
 # ---------------------------------------------------------------------------
 # script generation (Python keeps the List semantics itself: a third opinion)
 # ---------------------------------------------------------------------------
@@ -461,7 +491,7 @@ def run(chk, replay=None):
     if not ok:
         broken.append("theorems of Vita.C20.Props no longer check: " + msg)
 
-    exe = C.build_harness("c20_smallvec", "asan", extra_flags=["-O0"])
+    exe = build_header_only("c20_smallvec", ["-O0"])
 
     scripts = []
     if replay:
